@@ -219,43 +219,63 @@ fn generate(rng: &mut Rng, tier: Tier, cases: &mut Vec<Case>) {
     }
     // ---- exhaustive scopes
     exhaustive(3, true, false, "exhaustive-3-nodes-loops-all-ST", cases);
-    match tier {
-        Tier::Quick => {
-            exhaustive(4, false, true, "exhaustive-4-nodes-single-ST", cases);
+    exhaustive(4, false, false, "exhaustive-4-nodes-all-ST", cases);
+    // all 65536 edge sets with self loops on 4 nodes (those on fewer nodes are covered above), sampled (S,T);
+    // four graphs per case, each searched by both algorithms (a further G line switches graph / algorithm)
+    let per_graph = match tier {
+        Tier::Quick => 2,
+        Tier::Thorough => 12,
+    };
+    let mut c = Case::new("exhaustive-4-nodes-loops-sampled-ST");
+    let mut in_case = 0;
+    for bits in 0..(1u64 << 16) {
+        let edges = graph_from_bits(4, bits, true);
+        let n = node_count(&edges);
+        if n != 4 {
+            continue;
         }
-        Tier::Thorough => {
-            exhaustive(4, false, false, "exhaustive-4-nodes-all-ST", cases);
-            // all 65536 digraphs with self loops on 4 nodes, two sampled (S,T) pairs each
-            for bits in 0..(1u64 << 16) {
-                let edges = graph_from_bits(4, bits, true);
-                let n = node_count(&edges);
-                if n != 4 {
-                    continue;
-                }
-                for alg in ["bfs", "dfs"] {
-                    let mut c = Case::new("exhaustive-4-nodes-loops-sampled-ST");
-                    c.op(g_line(alg, &edges));
-                    for _ in 0..2 {
-                        let (s, t) = random_st(rng, n, 2, 2);
-                        c.op(format!("q {} {} -", lst(&s), lst(&t)));
-                    }
-                    cases.push(c);
-                }
+        for alg in ["bfs", "dfs"] {
+            c.op(g_line(alg, &edges));
+            for i in 0..per_graph {
+                let (s, t) = if i % 2 == 0 { random_st(rng, n, 1, 1) } else { random_st(rng, n, 2, 2) };
+                c.op(format!("q {} {} -", lst(&s), lst(&t)));
             }
-            // sample of the 5-node loop-free digraphs, single source / single target
-            for _ in 0..60000 {
-                let bits = rng.next() & ((1 << 20) - 1);
-                let edges = graph_from_bits(5, bits, false);
-                let n = node_count(&edges);
-                let alg = if rng.chance(1, 2) { "bfs" } else { "dfs" };
-                let mut c = Case::new("sampled-5-nodes");
+        }
+        in_case += 1;
+        if in_case == 4 {
+            cases.push(std::mem::replace(&mut c, Case::new("exhaustive-4-nodes-loops-sampled-ST")));
+            in_case = 0;
+        }
+    }
+    if in_case > 0 {
+        cases.push(c);
+    }
+    if tier == Tier::Thorough {
+        // all 2^20 loop-free edge sets on 5 nodes, both algorithms, two sampled (S,T) pairs each;
+        // eight consecutive graphs per case
+        let mut c = Case::new("exhaustive-5-nodes-sampled-ST");
+        let mut in_case = 0;
+        for bits in 0..(1u64 << 20) {
+            let edges = graph_from_bits(5, bits, false);
+            let n = node_count(&edges);
+            if n != 5 {
+                continue;
+            }
+            for alg in ["bfs", "dfs"] {
                 c.op(g_line(alg, &edges));
-                for _ in 0..3 {
-                    let (s, t) = random_st(rng, n, 2, 2);
-                    c.op(format!("q {} {} -", lst(&s), lst(&t)));
-                }
-                cases.push(c);
+                let (s, t) = random_st(rng, n, 1, 1);
+                c.op(format!("q {} {} -", lst(&s), lst(&t)));
+                let (s, t) = random_st(rng, n, 2, 2);
+                c.op(format!("q {} {} -", lst(&s), lst(&t)));
             }
+            in_case += 1;
+            if in_case == 8 {
+                cases.push(std::mem::replace(&mut c, Case::new("exhaustive-5-nodes-sampled-ST")));
+                in_case = 0;
+            }
+        }
+        if in_case > 0 {
+            cases.push(c);
         }
     }
     // ---- all filters (every subset of the edge ids) on sampled small multigraphs
@@ -413,6 +433,7 @@ fn execute(c: &Case, obs: &mut Vec<String>) {
                     return;
                 }
                 graph = Some(g);
+                objs.clear();
             }
             "new" => {
                 let (s, tg) = (parse_list(t[2]), parse_list(t[3]));
